@@ -21,9 +21,12 @@ let run () =
       if g "leak" <> 0 then report "c18-leak" "storage still allocated after the recycling handle and all parts were dropped";
       if g "capmax" > bnd then report "c18-buffer-bound" (Printf.sprintf "capacity %d exceeds max(C0, 4B+8) = %d" (g "capmax") bnd);
       if g "peakAll" > (k + 1) * bnd + 64 then report "c18-peak-bound" (Printf.sprintf "peak live bytes %d exceed (k+1)*max(C0,4B+8) = %d" (g "peakAll") ((k + 1) * bnd));
-      if g "peakAll" > 2 * g "peakN" + 64 then report "c18-peak-grows" (Printf.sprintf "peak live heap grew from %d (first %d rounds) to %d (%d rounds)" (g "peakN") (g "n") (g "peakAll") (g "n" * g "f"));
+      (* "no growth between N and FACTOR*N rounds" is the steady-state form of the property and is only demanded of PERIODIC patterns; with seeded-random message
+         sizes a larger message may first occur after round N: there only the theorem's round-independent bounds apply (false alarm of vp check 4, DESIGN 9) *)
+      let periodic = g "vary" = 0 in
+      if periodic && g "peakAll" > 2 * g "peakN" + 64 then report "c18-peak-grows" (Printf.sprintf "peak live heap grew from %d (first %d rounds) to %d (%d rounds)" (g "peakN") (g "n") (g "peakAll") (g "n" * g "f"));
       if g "alone" = 1 then begin
-        if g "allocsAll" <> g "allocsN" then report "c18-allocs-grow" (Printf.sprintf "every part was dropped before the next refill, yet byte-buffer allocations grew from %d (first %d rounds) to %d" (g "allocsN") (g "n") (g "allocsAll"));
+        if periodic && g "allocsAll" <> g "allocsN" then report "c18-allocs-grow" (Printf.sprintf "every part was dropped before the next refill, yet byte-buffer allocations grew from %d (first %d rounds) to %d" (g "allocsN") (g "n") (g "allocsAll"));
         let a = g "allocsAll" in
         if a >= 1 && (a - 1 >= 62 || (1 lsl (a - 1)) > max bnd 1) then report "c18-allocs-bound" (Printf.sprintf "%d allocations: 2^(n-1) exceeds max(C0,4B+8) = %d" a bnd)
       end
